@@ -1,3 +1,46 @@
 import KsiVerif.Util.DriverMain
-open KsiVerif
-def main : IO Unit := runDriver (fun i _ => "skip no-model-yet " ++ i)
+import KsiVerif.Util.VerifyDrv
+/-! Model driver for C12 — protocol in harness/exec_c12.c: the statuses of the parsers that have a model are compared;
+everything else on a line only has to come back (the sanitizers judge the run). -/
+open KsiVerif KsiVerif.Tlv KsiVerif.Template KsiVerif.VerifyDrv
+
+def st1 (out : String) : String := (words out).headD "?"
+
+def handle (inp out : String) : String :=
+  match words inp with
+  | "sig" :: h :: _ =>
+    match ofHex h with
+    | some raw =>
+      let ms := match parseSignature cfg raw with | .ok _ => "P0" | .error e => s!"P{e}"
+      if ms == st1 out then s!"ok sig:{ms}" else s!"diff sig:{st1 out} model={ms}"
+    | none => "skip bad-hex"
+  | "apdu" :: ver :: h :: _ =>
+    match ofHex h, ver.toNat? with
+    | some raw, some v =>
+      let ms := match parseAggrPdu cfg v raw with | .ok _ => "P0" | .error e => s!"P{e}"
+      if ms == st1 out then s!"ok apdu:v{v}:{ms}" else s!"diff apdu:{st1 out} model={ms}"
+    | _, _ => "skip bad-args"
+  | "epdu" :: ver :: h :: _ =>
+    match ofHex h, ver.toNat? with
+    | some raw, some v =>
+      let ms := match parseExtPdu cfg v raw with | .ok _ => "P0" | .error e => s!"P{e}"
+      if ms == st1 out then s!"ok epdu:v{v}:{ms}" else s!"diff epdu:{st1 out} model={ms}"
+    | _, _ => "skip bad-args"
+  | "tlv" :: h :: _ =>
+    match ofHex h with
+    | some raw =>
+      let ms := match parseBlob raw with | .ok _ => "P0" | .error e => s!"P{e}"
+      if ms == st1 out then s!"ok tlv:{ms}" else s!"diff tlv:{st1 out} model={ms}"
+    | none => "skip bad-hex"
+  | "ftlv" :: h :: _ =>
+    match ofHex h with
+    | some raw =>
+      let ms := if raw.isEmpty then s!"F{St.INVALID_ARGUMENT}" else match memRead raw with
+        | .ok hd => s!"F0:{hd.tag}:{hd.hdrLen}:{hd.datLen}"
+        | .error e => s!"F{e}"
+      if ms == st1 out then s!"ok ftlv:{(ms.take 2)}" else s!"diff ftlv:{st1 out} model={ms}"
+    | none => "skip bad-hex"
+  | op :: _ => if out.startsWith "BAD-OP" then "skip unknown-op" else s!"ok {op}:{(st1 out).take 4}"
+  | _ => "skip empty"
+
+def main : IO Unit := runDriver handle
